@@ -98,14 +98,16 @@ def run(tier="quick", seed=0, replay=None):
     if replay:
         print(open(replay).read())
         return 1
-    core.lean_stage(chk, "C16", extra_props=["C16a"])
+    core.lean_stage(chk, "C16", extra_props=["C16a", "C16b"])
     from harness import cover
+    from harness import fingerprint
+    fingerprint.direct(chk, ['ixai/explainer/base.py'])
     _cv = cover.Cover(['ixai/explainer/base.py'])
     _cv.__enter__()
     quick = tier == "quick"
     reqs, impls = [], []
     ids = explain.Ids()
-    for i in range(200 if quick else 3000):
+    for i in range(chk.count(200, 3000)):
         style, vals = gen_vals(chk.rng)
         for mode in ("sum", "delta"):
             desc = {"normalize": mode, "vals": {core.canon_key(k): rs(v) for k, v in vals.items()}}
@@ -126,7 +128,7 @@ def run(tier="quick", seed=0, replay=None):
                       {"type": name, "vals": vals, "mode": mode})
     chk.stat("type_sweep_cases", 50)
     # confidence bounds and variances on real explainers (float mode is not needed: alpha, variances are exact rationals -> float())
-    for i in range(30 if quick else 300):
+    for i in range(chk.count(30, 300)):
         kind = chk.rng.choice(["pfi", "sage"])
         cfg = next(iter(_expl.gen_configs(chk, kind, 1)))
         alpha = chk.rng.choice([Q(1), Q(1, 2), Q(1, 3), Q(1, 1000), Q(999, 1000)])
@@ -141,6 +143,15 @@ def run(tier="quick", seed=0, replay=None):
         if neg:
             chk.violation("variance-negative", f"{kind} {_expl.cfg_desc(cfg)}: variance of {neg} is negative: {var}", _expl.replay_payload(rig, cfg, len(rig.steps) - 1))
             continue
+        for mode in ("sum", "delta"):
+            try:
+                pub = ex.get_normalized_importance_values(mode)
+                f = normalize_oracle(dict(ex.importance_values), mode, pub) if ex.importance_values else None
+            except Exception as exn:
+                f = f"raised {core.err_kind(exn)}: {exn}"
+            if f:
+                chk.violation(f"normalize-public:{mode}", f"{kind} {_expl.cfg_desc(cfg)}: get_normalized_importance_values({mode!r}): {f}",
+                              _expl.replay_payload(rig, cfg, len(rig.steps) - 1))
         prev = None
         for delta in (1e-3, 0.05, 0.5, 1.0):
             try:
